@@ -52,14 +52,14 @@ ITEMS = [
      "live": "def live(a):\n    return FRAG({'dev_addr': a['dev_addr'], 'fcnt': a['fcnt'], 'frame': a['frame']})\n"},
     # encrypt_frame: number of A_i blocks and the blocks themselves (up to `c = AES.new(...)`)
     {"path": LW, "qualname": "encrypt_frame",
-     "spec": {"name": "encrypt_frame_blocks", "mode": "prefix", "stop_at": "text:c = AES.new", "returns": ["nb_blocks", "ai_blocks"],
+     "spec": {"name": "encrypt_frame_blocks", "mode": "prefix", "stop_at": "assign:c", "returns": ["nb_blocks", "ai_blocks"],
               "inputs": BLK_IN},
      "model": "(lw_nblocks (length frame), map (fun i => lw_block 1 (if uplink then 0 else 1) dev_addr fcnt (N.of_nat i)) (seq 1 (lw_nblocks (length frame))))",
      "model_when": "(length frame <=? 4080)%nat", "gen": gen_blocks, "ncases": 120,
      "live": "def live(a):\n    return FRAG({'dev_addr': a['dev_addr'], 'fcnt': a['fcnt'], 'frame': a['frame'], 'uplink': a['uplink']})\n"},
     # encrypt_frame: output = b''; for i in range(frame_length): output += bytes([frame[i] ^ ks[i]])
     {"path": LW, "qualname": "encrypt_frame",
-     "spec": {"name": "encrypt_frame_xor", "mode": "prefix", "start_at": "text:output = b''", "stop_at": "Return", "returns": ["output"],
+     "spec": {"name": "encrypt_frame_xor", "mode": "prefix", "start_at": "assign:output", "stop_at": "Return", "returns": ["output"],
               "inputs": [["frame", "frame", "bytes"], ["ks", "ks", "bytes"], ["frame_length", "frame_length", "nat"]]},
      "model": "xor_bytes frame ks", "model_when": "(frame_length =? length frame)%nat && (length frame <=? length ks)%nat", "gen": gen_xor,
      "live": "def live(a):\n    return FRAG({'frame': a['frame'], 'ks': a['ks'], 'frame_length': a['frame_length']})\n"},
@@ -70,7 +70,7 @@ ITEMS = [
      "model": "lw_block 1 (if uplink then 0 else 1) dev_addr fcnt 0", "gen": gen_blocks,
      "live": "def live(a):\n    return FRAG({'dev_addr': a['dev_addr'], 'fcnt': a['fcnt'], 'uplink': a['uplink']})\n"},
     {"path": LW, "qualname": "encrypt_fopts",
-     "spec": {"name": "encrypt_fopts_xor", "mode": "prefix", "start_at": "text:output = b''", "stop_at": "Return", "returns": ["output"],
+     "spec": {"name": "encrypt_fopts_xor", "mode": "prefix", "start_at": "assign:output", "stop_at": "Return", "returns": ["output"],
               "inputs": [["fopts", "fopts", "bytes"], ["ks", "ks", "bytes"]]},
      "model": "xor_bytes fopts ks", "model_when": "(length fopts <=? length ks)%nat", "gen": gen_fxor,
      "live": "def live(a):\n    return FRAG({'fopts': a['fopts'], 'ks': a['ks']})\n"},
